@@ -130,6 +130,11 @@ class World(WsWorld):
         else:
             self.gen_stream()
         self.first_emit = True
+        # a neighbour: a second connection of the same factory whose peer trickles pings while the judged stream
+        # arrives - connections of one process must not share per-connection state
+        self.neighbour = None
+        if (not sweep) and ch.flag("neighbour-connection", 0.15):
+            self.build_neighbour(fac, is_server, ext_req, ext_resp)
         # the application may start its own closing handshake while the stream is still arriving: what follows is
         # judged in CLOSING state (safety half only, see final())
         self.local_close_planned = (not sweep) and ch.flag("local-close", 0.15)
@@ -146,6 +151,43 @@ class World(WsWorld):
                 except Exception as ex:  # noqa
                     self.run.log("echo-raised", type(ex).__name__)
             e.hooks["on_message"] = echo
+
+    def build_neighbour(self, fac, is_server, ext_req, ext_resp):
+        from worlds.ws import Ep
+        t, p, peer, e2p, p2e = self.fw.connect_raw(self.run, self.reactor, fac, is_server, name="N")
+        peer.name = "PN"
+        n = Ep(self, "N", is_server)
+        n.t, n.p = t, p
+        p.ep = n
+        t.observers.append(n.on_write)
+        n.monitor = SenderMonitor("any", self.cfg["deflate"], DeflateCodec() if self.cfg["deflate"] else None)
+        self.fw.make_connection(t)
+        if is_server:
+            peer.send(self.client_request_bytes(extra=ext_req))
+        else:
+            t.flush(None)
+            self.fw.loop_drain(self)
+            peer.send(self.server_response_bytes(bytes(peer.received), extra=ext_resp))
+        chunk = p2e.take(len(p2e.buf))
+        n.on_delivered(chunk)
+        self.fw.deliver(self, t, chunk)
+        self.fw.loop_drain(self)
+        t.flush(None)
+        if n.p._st != 3:
+            from sim.core import HarnessError
+            raise HarnessError("neighbour connection did not open")
+        self.eps.append(n)
+        self.pipes.append((p2e, n))
+        self.neighbour = n
+        self.n_peer = peer
+        k = 2 + self.run.ch.choose(4, "neighbour-pings")
+        self.n_pings = [("NEIGHBOUR-%d-" % i).encode() * 3 for i in range(k)]
+        self.n_todo = list(self.n_pings)
+        self.run.probe("neighbour-connection")
+
+    def neighbour_emit(self):
+        payload = self.n_todo.pop(0)
+        self.n_peer.send(encode_frame(9, payload, mask=b"\x51\x52\x53\x54" if self.cfg["server"] else None))
 
     # --- stream generation ---------------------------------------------------------------------------
     def mask(self):
@@ -352,6 +394,8 @@ class World(WsWorld):
             acts.append((1.0, "peer-fin", self.peer_fin))
         if self.local_close_planned and not self.local_closed and self.e.p._st == 3:
             acts.append((1.2, "app-close", self.app_close))
+        if self.neighbour is not None and self.n_todo and not self.neighbour.t.is_gone():
+            acts.append((3.0, "neighbour-emit", self.neighbour_emit))
         return acts
 
     def emit(self):
@@ -428,6 +472,15 @@ class World(WsWorld):
     def final(self):
         run = self.run
         self.check_step()
+        if self.neighbour is not None:
+            n = self.neighbour
+            sent = self.n_pings[:len(self.n_pings) - len(self.n_todo)]
+            pongs = [pl for op, pl in n.monitor.controls if op == 10]
+            if pongs != sent[:len(pongs)] or (len(pongs) < len(sent) and not n.t.is_gone() and n.closed_cb is None):
+                run.violate(self.P + ".ping-answered", "neighbour-pong-missing-or-wrong", "pongs %r for pings %r" % (
+                    [x[:14] for x in pongs], [x[:14] for x in sent]))
+            for suffix, sig, detail in n.monitor.errors:
+                run.violate(self.P + ".%s" % suffix, sig, "neighbour: " + detail)
         e = self.e
         ref = self.reference()
         got = self.got_deliveries()
